@@ -137,6 +137,10 @@ int main(int argc, char **argv) {
     try
     {
       exp = p->parseExpression();
+      /* nothing but the end mark can follow */
+      bloc::TokenPtr t = p->pop();
+      if (t->code != bloc::Parser::Separator)
+        throw bloc::ParseError(bloc::EXC_PARSE_EXPRESSION_END_S, t->text.c_str());
       ctx.saveReturned(exp->value(ctx));
       ret = output(ctx);
       delete exp;
